@@ -1617,18 +1617,19 @@ theorem unresolved_is_known_part (tr : Nat → Option Tablets.Node) (htr : ∀ i
 
 /-! ... as an invariant of the tablets HELD in a reachable state (whatever `maintTablet` rewrote since they were learnt). -/
 
-/-- Where a held tablet comes from: some `learn` of the history with its range and raw replica list; if the tablet has
+/-- Where a tablet held by table `spec` comes from: some `learn` of the history FOR THAT TABLE with its range and raw
+replica list; if the tablet has
 no unresolved replica its replica list IS that raw list (host ids, shards, order); otherwise it remembers that raw list
 and holds a sub-sequence of it. -/
-def Origin (ops : List StateOp) (t : Tablet) : Prop :=
-  ∃ spec f l raw, StateOp.learn spec f l raw ∈ ops ∧ t.first = f ∧ t.last = l ∧
+def Origin (ops : List StateOp) (spec : String × String) (t : Tablet) : Prop :=
+  ∃ f l raw, StateOp.learn spec f l raw ∈ ops ∧ t.first = f ∧ t.last = l ∧
     (t.failed = none → rawOf t.replicas.all = raw) ∧
     (∀ r, t.failed = some r → r = raw ∧ (rawOf t.replicas.all).Sublist raw)
 
-private theorem origin_mono {ops ops' : List StateOp} {t : Tablet} (h : Origin ops t) (hs : ∀ o ∈ ops, o ∈ ops') :
-    Origin ops' t := by
-  obtain ⟨spec, f, l, raw, hm, r⟩ := h
-  exact ⟨spec, f, l, raw, hs _ hm, r⟩
+private theorem origin_mono {ops ops' : List StateOp} {spec : String × String} {t : Tablet} (h : Origin ops spec t)
+    (hs : ∀ o ∈ ops, o ∈ ops') : Origin ops' spec t := by
+  obtain ⟨f, l, raw, hm, r⟩ := h
+  exact ⟨f, l, raw, hs _ hm, r⟩
 
 private theorem alGet_mem'' {κ β : Type} [DecidableEq κ] (k : κ) (v : β) (m : List (κ × β)) (h : alGet k m = some v) :
     (k, v) ∈ m := by
@@ -1720,8 +1721,8 @@ private theorem rawOf_updateStale (rc : List (Nat × Tablets.Node)) (hrc : C15.K
   | some n => simp only []; rw [hrc _ _ hg]
 
 private theorem origin_maintTablet {ops : List StateOp} {rm : List Nat} {ns rc : List (Nat × Tablets.Node)}
-    (hns : C15.KeyOk ns) (hrc : C15.KeyOk rc) {t u : Tablet} (ho : Origin ops t)
-    (h : C15.maintTablet rm ns rc t = some u) : Origin ops u := by
+    (hns : C15.KeyOk ns) (hrc : C15.KeyOk rc) {spec : String × String} {t u : Tablet} (ho : Origin ops spec t)
+    (h : C15.maintTablet rm ns rc t = some u) : Origin ops spec u := by
   unfold C15.maintTablet at h
   simp only [Option.map_eq_some_iff, Option.bind_eq_some_iff] at h
   obtain ⟨t2, ⟨t1, h1, h2⟩, rfl⟩ := h
@@ -1730,14 +1731,14 @@ private theorem origin_maintTablet {ops : List StateOp} {rm : List Nat} {ns rc :
     · cases h2
     · cases h2; rfl
   subst e12
-  obtain ⟨spec, f, l, raw, hm, hf, hl, hnone, hsome⟩ := ho
+  obtain ⟨f, l, raw, hm, hf, hl, hnone, hsome⟩ := ho
   have hus : (updateStale rc t2).first = t2.first ∧ (updateStale rc t2).last = t2.last ∧
       (updateStale rc t2).failed = t2.failed := ⟨rfl, rfl, rfl⟩
   cases hfail : t.failed with
   | none =>
     have : t2 = t := by unfold reResolve at h1; simp only [hfail, Option.some.injEq] at h1; exact h1.symm
     subst this
-    refine ⟨spec, f, l, raw, hm, by rw [hus.1]; exact hf, by rw [hus.2.1]; exact hl, ?_, ?_⟩
+    refine ⟨f, l, raw, hm, by rw [hus.1]; exact hf, by rw [hus.2.1]; exact hl, ?_, ?_⟩
     · intro _; rw [rawOf_updateStale rc hrc]; exact hnone hfail
     · intro r hr; rw [hus.2.2, hfail] at hr; cases hr
   | some r0 =>
@@ -1750,7 +1751,7 @@ private theorem origin_maintTablet {ops : List StateOp} {rm : List Nat} {ns rc :
       by_cases hc : (resolveFailed (fun id => alGet id ns) r0).isEmpty = true
       · simp only [hc, if_true, Option.some.injEq] at h1; subst h1; exact ⟨rfl, rfl⟩
       · simp [hc] at h1
-    refine ⟨spec, f, l, r0, hm, by rw [hus.1, hrange.1]; exact hf, by rw [hus.2.1, hrange.2]; exact hl, ?_, ?_⟩
+    refine ⟨f, l, r0, hm, by rw [hus.1, hrange.1]; exact hf, by rw [hus.2.1, hrange.2]; exact hl, ?_, ?_⟩
     · intro _; rw [rawOf_updateStale rc hrc]; exact hraw
     · intro r hr; rw [hus.2.2, hfn] at hr; cases hr
 
@@ -1771,19 +1772,19 @@ private theorem keyOk_recreated (old new : Known) (hk : C15.KeyOk (nodesOf new))
     · cases he
 
 /-- **Every tablet HELD in a reachable state is complete or knows what it lacks** (invariant along any history of
-tablet feedback and metadata refreshes, any host-filter verdicts): it stems from a `learn` of the history with that
-range; if no replica of it is unresolved, its replica list is exactly the raw list the servers sent with that feedback
+tablet feedback and metadata refreshes, any host-filter verdicts): it stems from a `learn` of the history FOR THE TABLE THAT HOLDS IT,
+with that range; if no replica of it is unresolved, its replica list is exactly the raw list the servers sent with that feedback
 (same hosts, same shards, same order - also after re-resolution and after re-created `Node` objects were swapped in);
 otherwise it still remembers that raw list and holds a sub-sequence of it. With `refresh_leaves_nothing_unresolved`:
 right after a refresh every held tablet hands the policy ALL replicas the servers named. -/
 theorem held_tablets_complete (kss : List (String × Bool × List String)) (peers : List ((Ring.Node × Nat) × Bool))
     (ops : List StateOp) :
-    ∀ e ∈ ((RState.init kss peers).run kss ops).info.tables, ∀ t ∈ e.2.tablets, Origin ops t := by
+    ∀ e ∈ ((RState.init kss peers).run kss ops).info.tables, ∀ t ∈ e.2.tablets, Origin ops e.1 t := by
   -- the invariant carried along: origins, honest flags, and C15's `StateOk` (for `KeyOk` of the node maps)
   let I : List StateOp → RState → Prop := fun pre st =>
-    (∀ e ∈ st.info.tables, ∀ t ∈ e.2.tablets, Origin pre t) ∧ FlagsHonest st.info ∧ C15.StateOk st
+    (∀ e ∈ st.info.tables, ∀ t ∈ e.2.tablets, Origin pre e.1 t) ∧ FlagsHonest st.info ∧ C15.StateOk st
   have refreshI : ∀ (pre : List StateOp) (st : RState) (ps : List TabletsRefresh.Peer), I pre st →
-      (∀ e ∈ (refresh st ps kss).info.tables, ∀ t ∈ e.2.tablets, Origin pre t) := by
+      (∀ e ∈ (refresh st ps kss).info.tables, ∀ t ∈ e.2.tablets, Origin pre e.1 t) := by
     intro pre st ps ⟨ho, hfl, hok⟩ e he t ht
     have hok' := C15.stateOk_refresh st hok ps kss
     have hns : C15.KeyOk (nodesOf (newTopology st.known st.gen ps).1) := hok'.1
@@ -1792,7 +1793,7 @@ theorem held_tablets_complete (kss : List (String × Bool × List String)) (peer
     rw [C15.maintenance_unfold] at he
     simp only [] at he
     have hbase : ∀ x ∈ kss.foldl C15.addKs (st.info.tables.filter (fun e => C15.keptBy kss e.1)),
-        (∀ t ∈ x.2.tablets, Origin pre t) ∧ C15.FlagInv x.2 := by
+        (∀ t ∈ x.2.tablets, Origin pre x.1 t) ∧ C15.FlagInv x.2 := by
       intro x hx
       rcases mem_foldl_addKs kss _ x hx with h | h
       · have hm := (List.mem_filter.mp h).1
@@ -1808,8 +1809,8 @@ theorem held_tablets_complete (kss : List (String × Bool × List String)) (peer
   have stepI : ∀ (pre : List StateOp) (st : RState) (op : StateOp), I pre st → I (pre ++ [op]) (st.step kss op) := by
     intro pre st op hI
     obtain ⟨ho, hfl, hok⟩ := hI
-    have mono : ∀ t, Origin pre t → Origin (pre ++ [op]) t :=
-      fun t h => origin_mono h (fun o ho' => List.mem_append_left _ ho')
+    have mono : ∀ sp t, Origin pre sp t → Origin (pre ++ [op]) sp t :=
+      fun sp t h => origin_mono h (fun o ho' => List.mem_append_left _ ho')
     cases op with
     | learn spec f l raw =>
       refine ⟨?_, C15.learn_keeps_flags_honest hfl spec _, C15.stateOk_learn st hok spec f l raw⟩
@@ -1823,7 +1824,7 @@ theorem held_tablets_complete (kss : List (String × Bool × List String)) (peer
         exact hok.1 id n (by rw [alGet_nodesOf']; exact hn)
       rcases mem_alSet'' _ _ _ e he with rfl | hm
       · rcases addTablet_mem' _ _ t ht with rfl | hm
-        · refine ⟨spec, f, l, raw, List.mem_append_right _ List.mem_cons_self, rfl, rfl, ?_, ?_⟩
+        · refine ⟨f, l, raw, List.mem_append_right _ List.mem_cons_self, rfl, rfl, ?_, ?_⟩
           · intro hn; exact (resolved_is_raw _ htr).1 f l raw hn
           · intro r hr
             have hr' : r = raw := by
@@ -1838,12 +1839,12 @@ theorem held_tablets_complete (kss : List (String × Bool × List String)) (peer
           | none => rw [hg] at hm; simp [Table.empty] at hm
           | some c =>
             rw [hg] at hm
-            exact mono t (ho _ (alGet_mem'' _ _ _ hg) t hm)
-      · exact mono t (ho e hm t ht)
+            exact mono _ t (ho _ (alGet_mem'' _ _ _ hg) t hm)
+      · exact mono _ t (ho e hm t ht)
     | refresh ps =>
       refine ⟨?_, (C15.refresh_resolves_all hfl _ _ _ _).2, C15.stateOk_refresh st hok _ kss⟩
       intro e he t ht
-      exact mono t (refreshI pre st (ps.map toPeer) ⟨ho, hfl, hok⟩ e he t ht)
+      exact mono _ t (refreshI pre st (ps.map toPeer) ⟨ho, hfl, hok⟩ e he t ht)
   have runI : ∀ (ops pre : List StateOp) (st : RState), I pre st → I (pre ++ ops) (st.run kss ops) := by
     intro ops
     induction ops with
@@ -2360,6 +2361,16 @@ theorem session_routing_info_spec (p : PreparedM) (values : List PartitionKey.Ra
     unfold sessionFirstAttempt
     rw [hri]
   · exact int64_toInt_range _
+
+/-- **The two copies of the `RoutingInfo` literal agree**: the one `Session::execute` builds (session.rs:1809-1816) and
+the one `execute_iter`'s pager builds for its page requests (pager.rs:949-966) are the same function of the prepared
+statement, the bound values and the execution parameters - so every statement about `sessionRoutingInfo` (in particular
+`session_first_attempt_owns_token`) holds for the first page request of `execute_iter` too. (Both are transcriptions;
+their tie to the code is the `e2e route` cases with `api=u` / `api=i`, which run the real Session.) -/
+theorem pager_routing_info_eq (p : PreparedM) (values : List PartitionKey.RawValue) (ex : ExecM) :
+    pagerRoutingInfo p values ex = sessionRoutingInfo p values ex := by
+  unfold pagerRoutingInfo sessionRoutingInfo
+  cases PartitionKey.boundCalculateToken p.cdc p.pk values <;> rfl
 
 open ScyllaVerif.Props.C05 in
 /-- **End to end, from the bound key** (C03 ∘ glue ∘ C05/C04 ∘ C11 ∘ pool): for a prepared statement on a ring table
